@@ -14,6 +14,7 @@ template class HashSet<int, HashTraits<int>, MemManagerDefault, HashSetItemTrait
 struct C14Rw { int k; };
 typedef DataTable<DataColumnListStatic<C14Rw>> C14Table;
 typedef HashMultiMap<int, int> C14Multi;
+inline void c14_arric(ArrayIntCap<4, int>& a, ArrayIntCap<4, int>& b) { ArrayIntCap<4, int> c(std::move(a)); a = std::move(b); a.Swap(b); a.Clear(true); a = c; a.AddBack(1); }
 inline void c14_arr(Array<int>& a, Array<int>& b) { Array<int> c(std::move(a)); a = std::move(b); a.Swap(b); a.Clear(true); a = c; a.AddBack(1); }
 // one use of every member that is translated, so that clang instantiates the bodies
 inline void c14_use(C14Table& t, C14Table& t2, C14Multi& m, C14Multi& m2) { t.Clear(); m.Clear(); t.Swap(t2); m.Swap(m2); C14Table t3(std::move(t)); t3.Clear(); m = std::move(m2); m = m2; t = std::move(t2); t = t2; C14Multi m3(m); C14Table t4(t); }
